@@ -204,7 +204,7 @@ def nxt(x, n, single=False):
 
 def gen_triples(rng, n, single=False):
     out = [(1.0, 2.0, 4.0), (0.5, 1.0, 1.5)] if rng.random() < 0.3 else []
-    kinds = ['ordered', 'lo_gt_nom', 'hi_lt_nom', 'flat', 'both_above', 'both_below', 'wide', 'near']
+    kinds = ['ordered', 'lo_gt_nom', 'hi_lt_nom', 'flat', 'both_above', 'both_below', 'wide', 'near', 'one_sided_up', 'one_sided_down']
     off = rng.randrange(len(kinds))
     while len(out) < n:
         kind = kinds[(len(out) + off) % len(kinds)]
@@ -218,6 +218,10 @@ def gen_triples(rng, n, single=False):
             t = (nom * (1 - r1) * (1 - r2), nom, nom * (1 - r1))
         elif kind == 'flat':
             t = (nom, nom, nom)
+        elif kind == 'one_sided_up':          # the down variation IS the nominal (zero slope on one side only)
+            t = (nom, nom, nom * (1 + r2) if rng.random() < 0.7 else nom * (1 - r2))
+        elif kind == 'one_sided_down':        # the up variation IS the nominal
+            t = (nom * (1 - r1) if rng.random() < 0.7 else nom * (1 + r1), nom, nom)
         elif kind == 'both_above':
             t = (nom * (1 + r1 + r2), nom, nom * (1 + r1))
         elif kind == 'both_below':
@@ -499,7 +503,7 @@ def run_interval(ctx, items, per_file=12):
 # property-directed search on the implementation (always run; the only source of concrete violations)
 # =========================================================================================
 SEARCH_TRIPLES = [(1.0, 2.0, 4.0), (0.5, 1.0, 1.5), (3.0, 2.0, 1.0), (1.0, 1.0, 1.0), (2.0, 1.0, 3.0),
-                  (3.0, 5.0, 4.0), (0.125, 8.0, 64.0), (9.5, 10.0, 10.25)]
+                  (3.0, 5.0, 4.0), (0.125, 8.0, 64.0), (9.5, 10.0, 10.25), (30.0, 30.0, 33.0), (17.0, 20.0, 20.0)]
 
 
 def region(code, a0, al):
@@ -876,7 +880,7 @@ def run(ctx):
         evaluations=stats['observations'] + stats['search_evaluations'],
         distinct_nontrivial=len(nontrivial) + sum(1 for b in hist if len({len(c[0]) for c in b['calls']}) > 1),
         rule='points: (code, alpha0, down, nom, up, alpha) with alpha from breakpoints 0/+-1/+-alpha0, their +-1,+-2 ulp neighbours, the core, both '
-             'extrapolation sides; triples ordered / lo>nom / hi<nom / flat / wide / nearly equal; every point evaluated by the vectorised and the '
+             'extrapolation sides; triples ordered / lo>nom / hi<nom / flat / one-sided (up or down variation equal to the nominal) / wide / nearly equal; every point evaluated by the vectorised and the '
              'scalar class on each backend listed. non-trivial = triple not flat and alpha != 0; distinct by the full key. Plus call histories with '
              '>= 2 different alpha-set shapes on one instance (counted once each).',
         points=stats['points'], observations=stats['observations'], qc_points_exact=stats['qc_points'], interval_points=stats['interval_points'],
